@@ -409,7 +409,7 @@ theorem decode_tcp (ov : Bool) (k : List UInt8) (b : Bytes) (hlen : b.length < 2
     | cons x r => rfl
   have spl := split_to_ok (ρ := ServerCodec × Cursor × RResult (Option InboundIn)) b (Cursor.len b) (by rw [len_toNat b hlen]; omega)
   rw [len_toNat b hlen, List.drop_length, List.take_length] at spl
-  simp only [ServerCodec.decode, hr, he, spl, bind_next, run_ret, Bool.false_eq_true, ↓reduceIte]
+  simp only [ServerCodec.decode, hr, he, spl, bind_next, run_ret, Bool.false_eq_true, Bool.not_false, Bool.not_true, ↓reduceIte]
 
 /-- state `Udp`: `decode_packet` -/
 theorem decode_udp (ov : Bool) (k : List UInt8) (b : Bytes) (hne : b ≠ []) :
